@@ -1,11 +1,9 @@
-from props import _irb
-LEVEL = 'exploration'
+from props import _irp
+LEVEL = 'proof'
 PID = 'C19'
 
 def run(rep, tier, seed):
-    rep.explanation = 'bounded stand-in only (proof tier not yet wired)'
-    fails = _irb.run_histories(rep, PID, tier, seed)
-    _irb.report_failures(rep, PID, fails)
+    _irp.run(rep, PID, tier, seed, 'ghost announcement state: cover-before-write at every store to a mirrored field, nothing announced in vain at every non-veto exit (P); dispatcher wiring and listener registration (S); shadow-mirror listener on histories (B)')
 
 def replay(path):
-    return _irb.replay(path, PID)
+    return _irp.replay(path, PID)
